@@ -37,7 +37,7 @@ func runTermination(c *Ctx, prop string) {
 	base := libraryGoroutines()
 	reps := c.N(1, 12)
 	for rep := 0; rep < reps; rep++ {
-		cfg := baseCfgs[r.Intn(len(baseCfgs))]
+		cfg := baseCfg(r, r.Intn(len(baseCfgs)))
 		h := genHistory(r, cfg, histOpts{units: 4 + r.Intn(4), maxCols: 3, maxRows: 2, rotations: false, ignorables: false,
 			kindsOnly: []string{"txXid", "txCommit", "autoRows", "ddl"}})
 		h.encode(c)
@@ -351,7 +351,7 @@ func runC07(c *Ctx) {
 		if k >= len(ids) && r.Bool() {
 			sid = uint32(r.U64())
 		}
-		cfg := baseCfgs[r.Intn(len(baseCfgs))]
+		cfg := baseCfg(r, r.Intn(len(baseCfgs)))
 		h := genHistory(r, cfg, histOpts{units: 4 + r.Intn(4), maxCols: 2, maxRows: 1, rotations: true, ignorables: false})
 		// arbitrary file names
 		nameClass := "short"
@@ -529,7 +529,7 @@ func runC08(c *Ctx) {
 	base := libraryGoroutines()
 	n := c.N(7, 120)
 	for k := 0; k < n; k++ {
-		cfg := baseCfgs[k%len(baseCfgs)]
+		cfg := baseCfg(r, k)
 		big := []int{0, 4000, 4090, 5000, 262000, 70000, 270000}[k%7]
 		if !c.Thorough() && big == 270000 {
 			big = 4100
